@@ -5,6 +5,7 @@ multi_grad_of_fn (call_fn_with_tensors), jacobian_of_fn, multi_jacobian_of_fn (s
 numeric_jacobian, interpreter __setitem__ - with REAL NumPy (the symbolic variables never reach an array: they choose
 which evaluation of the loss fails, how it fails, the operator form and the parameter kind).
 """
+from vt import world as _world
 from vt.world import enter, verdict, cfg, CFG, pick, cut
 from klongpy import KlongInterpreter
 from klongpy.core import KGSym
@@ -23,7 +24,7 @@ ASSUMPTIONS = [
 ]
 OUTSIDE = ["torch autograd (C++) and gradient-tracking tensors", "numeric accuracy of the gradient (C06)"]
 
-K = KlongInterpreter()
+K = _world.hoist(KlongInterpreter())
 _S = {"n": 0, "at": -1, "mode": 0}
 
 
